@@ -8,7 +8,8 @@ Archives to /verif/seeded/<PID>-<i>/ (patch.diff, demo.py, note.txt, meta.json).
 import json, os, shutil, subprocess, sys, xml.etree.ElementTree as ET
 pid = sys.argv[1]
 suite = "--no-suite" not in sys.argv
-wt = f"/tmp/seed_{pid}"
+rnd = "2" if "--round2" in sys.argv else ""
+wt = f"/tmp/seed{rnd}_{pid}"
 sd = f"{wt}/_seed"
 base = json.load(open('/root/.vp/BASELINE.json'))
 stable = set(base['stable_pass'])
@@ -33,8 +34,8 @@ for i in (1, 2, 3):
     meta["demo_patched_exit"] = r1.returncode
     meta["demo_patched_tail"] = (r1.stdout + r1.stderr)[-400:]
     if suite:
-        xml = f"/tmp/junit_seed_{pid}_{i}.xml"
-        bt = f"/tmp/pytest_bt_{pid}_{i}"
+        xml = f"/tmp/junit_seed{rnd}_{pid}_{i}.xml"
+        bt = f"/tmp/pytest_bt{rnd}_{pid}_{i}"
         sh(f"/venv/bin/python -m pytest -q -p no:cacheprovider --timeout=900 --continue-on-collection-errors -n 10 --basetemp={bt} --junitxml={xml}", timeout=3600)
         shutil.rmtree(bt, ignore_errors=True)
         passed = set()
@@ -61,7 +62,7 @@ for i in (1, 2, 3):
     sh("git checkout -- . && git clean -fdq -e _seed")
     ok = meta["demo_clean_exit"] == 0 and meta["demo_patched_exit"] != 0 and (not suite or not meta.get("suite_stable_missing"))
     meta["confirmed"] = ok
-    out = f"/verif/seeded/{pid}-{i}"
+    out = f"/verif/seeded/{pid}-{'r2-' if rnd else ''}{i}"
     os.makedirs(out, exist_ok=True)
     shutil.copy(pf, f"{out}/patch.diff"); shutil.copy(f"{sd}/demo{i}.py", f"{out}/demo.py")
     if os.path.exists(f"{sd}/note{i}.txt"): shutil.copy(f"{sd}/note{i}.txt", f"{out}/note.txt")
